@@ -32,6 +32,8 @@ type c06Fleet struct {
 	offs   []int
 	limit  int
 	points string
+	// clientPoints: VERIF_POINTS of the dmap client process
+	clientPoints string
 }
 
 type c06FileSpec struct {
@@ -54,11 +56,12 @@ func c06Body(r *vlib.Run) int {
 		"accounting) or by a small group column (same group merged from many servers). W1: fleets of 1-32 servers with one file each " +
 		"(simultaneous delivery, interval 1, final report): every deficit or excess is a violation. W2: 1-4 servers x 1-12 files x " +
 		"MaxConcurrentCats {1,2,4} x file sizes {1,2,99,101,5000}: strict unless the hook trace shows the server-side aggregator " +
-		"finishing before all files were registered/closed (recorded finding). In-process tier: N goroutines merging the same K " +
+		"(and with it the session) finishing before all read commands of the session had been received (recorded finding, the " +
+		"mapreduce face of c02.cmd-race). In-process tier: N goroutines merging the same K " +
 		"messages concurrently into one global group must yield N*K. distinct = distinct (fleet shape, file sizes, query) runs; " +
 		"non-trivial = at least 2 files in the run.")
 	r.Assume("termination is decided by the logical-time hang rule")
-	r.Assume("a deficit is attributed to c06.agg-early-exit only if the trace of that server shows 'no more channels' before every file of the session was registered and seen closed, and no group shows an excess")
+	r.Assume("a deficit is attributed to c06.cmd-race only if the trace of that server shows 'no more channels' before every read command of the session was received, and no group shows an excess")
 	rng := r.Rng("e2e")
 	type fleetPlan struct {
 		n, limit int
@@ -111,19 +114,32 @@ func c06Body(r *vlib.Run) int {
 	return len(plans) * runsPer / 2
 }
 
-// c06Provoke reproduces the recorded finding deterministically: the second
-// file's reader is held back after acquiring its slot, the first file finishes
-// and the aggregator decides that no more input will come.
+// c06Provoke: (1) regression guard for the repaired early exit (fixed:
+// property=C06 ...): the second file's reader is held back for 700 ms after it
+// acquired its slot while the first file finishes; the aggregator has to wait
+// for it, the result must be complete. (2) the recorded finding c06.cmd-race
+// reproduced deterministically: the client pauses 400 ms between the commands
+// of the session, the aggregator and the session are finished before the
+// second read command arrives.
 func c06Provoke(r *vlib.Run) {
-	env := []string{"VERIF_TRACE=trace.jsonl", "VERIF_POINTS=srv.lim.acq=sleep(700)@2"}
-	fl, err := startFleet(r, "c06prov", 1, map[string]interface{}{"MaxConcurrentCats": 2, "MaxConnections": 50}, env, "error")
-	if err != nil {
-		r.Inconclusive("fleet-start")
-		return
+	for k, cp := range []string{"", "cli.cmd.sent=sleep(400)"} {
+		env := []string{"VERIF_TRACE=trace.jsonl"}
+		if cp == "" {
+			env = append(env, "VERIF_POINTS=srv.lim.acq=sleep(700)@2")
+		}
+		fl, err := startFleet(r, fmt.Sprintf("c06prov%d", k), 1, map[string]interface{}{"MaxConcurrentCats": 2, "MaxConnections": 50}, env, "error")
+		if err != nil {
+			r.Inconclusive("fleet-start")
+			return
+		}
+		cf := &c06Fleet{fl: fl, limit: 2, traces: []string{filepath.Join(fl.Servers[0].Spec.Dir, "trace.jsonl")}, offs: []int{0}, clientPoints: cp,
+			points: "srv.lim.acq=sleep(700)@2"}
+		if cp != "" {
+			cf.points = ""
+		}
+		c06Run(r, cf, rand.New(rand.NewSource(r.Seed)), 99, k, true, true)
+		fl.Stop()
 	}
-	defer fl.Stop()
-	cf := &c06Fleet{fl: fl, limit: 2, traces: []string{filepath.Join(fl.Servers[0].Spec.Dir, "trace.jsonl")}, offs: []int{0}}
-	c06Run(r, cf, rand.New(rand.NewSource(r.Seed)), 99, 0, true, true)
 }
 
 func c06Run(r *vlib.Run, cf *c06Fleet, rng *rand.Rand, pi, run int, w2 bool, provoke bool) {
@@ -187,10 +203,15 @@ func c06Run(r *vlib.Run, cf *c06Fleet, rng *rand.Rand, pi, run int, w2 bool, pro
 		query += " interval 1"
 	}
 	args := append(fl.ClientArgs(), "--logger", "stdout", "--logLevel", "error", "--noColor", "--files", strings.Join(files, ","), "--query", query)
-	res := vlib.RunCmd(vlib.Cmd{Path: r.Bin("dmap"), Args: args, Env: fl.ClientEnv(), Dir: fl.Home, Watchdog: 300 * time.Second})
+	cenv := fl.ClientEnv()
+	if cf.clientPoints != "" {
+		cenv = append(cenv, "VERIF_POINTS="+cf.clientPoints)
+	}
+	res := vlib.RunCmd(vlib.Cmd{Path: r.Bin("dmap"), Args: args, Env: cenv, Dir: fl.Home, Watchdog: 300 * time.Second})
 	time.Sleep(20 * time.Millisecond)
 	// collect this run's trace events per server
-	early := map[int]string{}
+	early := map[int]string{}   // recorded finding: a read command arrived after the aggregator had finished
+	leftOut := map[int]string{} // never acceptable: all commands were there, files were left out
 	var sig []string
 	for s := range fl.Servers {
 		all := readTrace(cf.traces[s])
@@ -199,23 +220,32 @@ func c06Run(r *vlib.Run, cf *c06Fleet, rng *rand.Rand, pi, run int, w2 bool, pro
 			evs = all[cf.offs[s]:]
 		}
 		cf.offs[s] = len(all)
-		reg, closed := 0, 0
+		reg, closed, recvRead := 0, 0, 0
 		for _, e := range evs {
 			switch e.Name {
+			case "srv.cmd.recv":
+				if len(e.KV) > 1 && (e.KV[1] == "cat" || e.KV[1] == "grep" || e.KV[1] == "tail") {
+					recvRead++
+					sig = append(sig, "k")
+				}
 			case "srv.mapr.reg":
 				reg++
 				sig = append(sig, "r")
 			case "mapr.agg.closed":
 				closed++
-				sig = append(sig, "c")
+				if len(sig) == 0 || sig[len(sig)-1] != "c" {
+					sig = append(sig, "c") // the aggregator polls a closed channel while input is announced
+				}
 			case "mapr.agg.take":
 				sig = append(sig, "t")
 			case "mapr.agg.requeue":
 				sig = append(sig, "q")
 			case "mapr.agg.nomore":
 				sig = append(sig, "N")
-				if reg < nFiles || closed < nFiles {
-					early[s] = fmt.Sprintf("aggregator finished with %d of %d files registered and %d seen closed", reg, nFiles, closed)
+				if recvRead < nFiles {
+					early[s] = fmt.Sprintf("aggregator finished when %d of %d read commands had been received (%d files registered)", recvRead, nFiles, reg)
+				} else if reg < nFiles {
+					leftOut[s] = fmt.Sprintf("aggregator finished with all %d read commands received but only %d files registered", nFiles, reg)
 				}
 			}
 		}
@@ -240,7 +270,7 @@ func c06Run(r *vlib.Run, cf *c06Fleet, rng *rand.Rand, pi, run int, w2 bool, pro
 		return
 	}
 	detail := map[string]interface{}{"servers": len(fl.Servers), "files_per_server": nFiles, "limit": cf.limit, "query": query,
-		"points": cf.points, "exit": res.Exit, "hung": res.Hung, "early_exit_seen_in_trace": early,
+		"points": cf.points, "client_points": cf.clientPoints, "exit": res.Exit, "hung": res.Hung, "command_race_seen_in_trace": early, "files_left_out_seen_in_trace": leftOut,
 		"stderr": vlib.Trunc(string(res.Stderr), 1200), "events": vlib.Trunc(strings.Join(sig, ""), 400)}
 	got := map[string]int{}
 	gotSum := map[string]float64{}
@@ -287,7 +317,7 @@ func c06Run(r *vlib.Run, cf *c06Fleet, rng *rand.Rand, pi, run int, w2 bool, pro
 	detail["deficit"] = deficit
 	detail["excess"] = excess
 	// attribution to the recorded finding
-	if len(excess) == 0 && nFiles > 1 && len(early) > 0 && (len(deficit) > 0 || res.Hung) {
+	if len(excess) == 0 && nFiles > 1 && len(early) > 0 && len(leftOut) == 0 && (len(deficit) > 0 || res.Hung) {
 		ok := true
 		if !byGroup && !res.Hung {
 			for k := range deficit {
@@ -299,8 +329,8 @@ func c06Run(r *vlib.Run, cf *c06Fleet, rng *rand.Rand, pi, run int, w2 bool, pro
 				}
 			}
 		}
-		if ok && r.Known("c06.agg-early-exit", "server-side aggregator finished before all files of the session were registered and closed; their lines are missing") {
-			r.Count("early_exit_runs", 1)
+		if ok && r.Known("c06.cmd-race", "multi-command session: aggregator and session finished before a later read command was received; that file's lines are missing (same root cause as c02.cmd-race)") {
+			r.Count("cmd_race_runs", 1)
 			return
 		}
 	}
@@ -465,26 +495,29 @@ func c06PipeRuns(r *vlib.Run) {
 }
 
 // c06Systematic: MaxConcurrentCats=1 and files ending in a long tail of lines
-// of other tables. The queued file registers within microseconds after its
-// predecessor was closed, while the idle aggregator looks only every 100 ms, so
-// the recorded early exit needs a microsecond-wide window here: if it occurs in
-// half of the runs or more, it is not the recorded rare interleaving.
+// of other tables: every file but the first waits for the read slot while its
+// predecessor is read, and registers with the aggregator only after the
+// predecessor was closed. The aggregator has to wait for the files of commands
+// it knows of (this was the recorded finding c06.agg-early-exit until it was
+// repaired); a short result is a violation unless the trace shows the command
+// race (a read command received after the aggregator had finished).
 func c06Systematic(r *vlib.Run) {
-	var env []string // no hooks here: their file I/O would widen the window
+	env := []string{"VERIF_TRACE=trace.jsonl"}
 	fl, err := startFleet(r, "c06sys", 1, map[string]interface{}{"MaxConcurrentCats": 1, "MaxConnections": 50}, env, "error")
 	if err != nil {
 		r.Inconclusive("fleet-start")
 		return
 	}
 	defer fl.Stop()
+	trace := filepath.Join(fl.Servers[0].Spec.Dir, "trace.jsonl")
+	off := 0
 	runs := r.N(8, 40)
-	short := 0
-	var details []string
 	for run := 0; run < runs; run++ {
 		sub := fmt.Sprintf("sys%d", run)
 		var files []string
 		total := 0
-		for f := 0; f < 3; f++ {
+		nFiles := 3 + run%3
+		for f := 0; f < nFiles; f++ {
 			var b bytes.Buffer
 			for q := 1; q <= 30; q++ {
 				b.WriteString(c06Line(fmt.Sprintf("f%d", f), 0, q) + "\n")
@@ -499,8 +532,14 @@ func c06Systematic(r *vlib.Run) {
 		}
 		out := filepath.Join(fl.Home, fmt.Sprintf("sys-%d.csv", run))
 		query := "from CONS select fid,count($line) group by fid outfile " + out
-		args := append(fl.ClientArgs(), "--logger", "stdout", "--logLevel", "error", "--noColor", "--files", strings.Join(files, ","), "--query", query)
+		fileArg := strings.Join(files, ",")
+		glob := run%2 == 1
+		if glob {
+			fileArg = filepath.Join(sub, "t*.log") // one command, all files behind the limit
+		}
+		args := append(fl.ClientArgs(), "--logger", "stdout", "--logLevel", "error", "--noColor", "--files", fileArg, "--query", query)
 		res := vlib.RunCmd(vlib.Cmd{Path: r.Bin("dmap"), Args: args, Env: fl.ClientEnv(), Dir: fl.Home, Watchdog: 120 * time.Second})
+		time.Sleep(20 * time.Millisecond)
 		got := 0
 		if b, err := os.ReadFile(out); err == nil {
 			_, rows := mq.ParseCSV(string(b))
@@ -514,31 +553,51 @@ func c06Systematic(r *vlib.Run) {
 		os.Remove(out)
 		os.Remove(out + ".query")
 		os.RemoveAll(filepath.Join(fl.Servers[0].Spec.Dir, sub))
-		r.Eval(fmt.Sprintf("systematic|%d", run))
+		all := readTrace(trace)
+		evs := all
+		if off <= len(all) {
+			evs = all[off:]
+		}
+		off = len(all)
+		recvRead, cmdRace := 0, false
+		wantCmds := nFiles
+		if glob {
+			wantCmds = 1
+		}
+		for _, e := range evs {
+			switch e.Name {
+			case "srv.cmd.recv":
+				if len(e.KV) > 1 && (e.KV[1] == "cat" || e.KV[1] == "grep" || e.KV[1] == "tail") {
+					recvRead++
+				}
+			case "mapr.agg.nomore":
+				if recvRead < wantCmds {
+					cmdRace = true
+				}
+			}
+		}
+		r.Eval(fmt.Sprintf("systematic|%d|%v", run, glob))
+		r.Count("files_queued_behind_the_limit_runs", 1)
+		r.Count("lines_accounted", got)
 		if res.TimedOut {
 			r.Inconclusive("dmap-watchdog")
 			continue
 		}
-		if got > total {
-			r.Violation("lines-counted-more-than-once", map[string]interface{}{"scenario": "limit 1, files with foreign tails", "got": got, "want": total})
+		if got == total && !res.Hung && res.Exit == 0 {
 			continue
 		}
-		if got < total || res.Hung {
-			short++
-			details = append(details, fmt.Sprintf("run %d: %d of %d lines, hung=%v", run, got, total, res.Hung))
+		detail := map[string]interface{}{"scenario": "MaxConcurrentCats=1, files with a tail of foreign lines", "files": nFiles, "glob": glob,
+			"lines_in_result": got, "want": total, "hung": res.Hung, "exit": res.Exit, "read_commands_received_before_aggregator_finished": recvRead}
+		switch {
+		case got > total:
+			r.Violation("lines-counted-more-than-once", detail)
+		case cmdRace && !glob && r.Known("c06.cmd-race", "multi-command session: aggregator and session finished before a later read command was received; that file's lines are missing (same root cause as c02.cmd-race)"):
+			r.Count("cmd_race_runs", 1)
+		case res.Hung:
+			r.Violation("dmap-did-not-terminate", detail)
+		default:
+			r.Violation("files-queued-behind-the-limit-left-out", detail)
 		}
-	}
-	r.Count("systematic_scenario_runs", runs)
-	r.Count("systematic_scenario_short_runs", short)
-	// How often the recorded early exit occurs here depends on scheduling (on a
-	// CPU-throttled machine the window between "file closed" and "next file
-	// registered" grows from microseconds to a scheduling quantum), so the rate is
-	// reported as an observation and never decides.
-	if short > 0 {
-		r.Known("c06.agg-early-exit", "server-side aggregator finished before all files of the session were registered and closed; their lines are missing")
-	}
-	if short*2 >= runs {
-		fmt.Printf("OBSERVATION property=%s the recorded early exit occurred in %d of %d runs of the limit-1 scenario (usually rare): %v\n", r.Property, short, runs, details)
 	}
 }
 
